@@ -32,4 +32,4 @@ rundemo "$S/patched"; dp=$?
 mkdir -p "$S/v/evidence"; cp /verif/known_findings.json "$S/v/"
 out=$(/verif/bin/imapcheck -repo "$S/patched" -verif "$S/v" -property "$PROP" 2>&1); rc=$?
 echo "RESULT $B: suite_failures=$suite demo_clean_rc=$dc demo_patched_rc=$dp check_rc=$rc"
-echo "$out" | grep -E "^  [a-z].*rule|UNDECIDED|UNRESOLVED" | sed "s#$S/patched/##g" | cut -c1-420 | head -6
+echo "$out" | grep -E "^  [a-zA-Z_/.0-9]+\.go:[0-9]+: rule|UNDECIDED|UNRESOLVED" | sed "s#$S/patched/##g" | cut -c1-420 | head -6
